@@ -86,12 +86,15 @@ class Check:
         counts = {}
         for o in self.obs:
             counts[o.rule] = counts.get(o.rule, 0) + 1
-        for rid, fl in self.floors.items():
-            if counts.get(rid, 0) < fl:
-                raise AnalysisBroken("rule %s matched %d instance(s), floor confirmed by reading is %d"
-                                     % (rid, counts.get(rid, 0), fl))
+        # a rule that matched fewer sites than were confirmed by reading means the analysis lost its footing — unless violations were
+        # already established: those stand on their own (their cause is usually what made the other sites vanish)
         known = self.load_known()
         kmap = {"%s@%s" % (k["rule"], k["site"]): k for k in known}
+        failing = any(not o.ok and o.key not in kmap for o in self.obs)
+        for rid, fl in self.floors.items():
+            if counts.get(rid, 0) < fl and not failing:
+                raise AnalysisBroken("rule %s matched %d instance(s), floor confirmed by reading is %d"
+                                     % (rid, counts.get(rid, 0), fl))
         # de-duplicate obligations seen in several configurations
         uniq = {}
         for o in self.obs:
